@@ -1,7 +1,11 @@
 // Package q declares the (non-main) types used by the fixed C15 probes.
 package q
 
-import "strconv"
+import (
+	"reflect"
+	"strconv"
+	"unsafe"
+)
 
 type Stringer2 interface{ String() string }
 
@@ -133,6 +137,47 @@ type TP[V any] struct {
 type SArg = struct {
 	A int
 	b Tagged
+}
+
+type T9x Box[Stringer2]
+
+// SliceIdentity: is reflect.SliceOf(T9x) the type the compiler emitted for []T9x?
+func SliceIdentity() bool {
+	return reflect.TypeOf((*[]T9x)(nil)).Elem() == reflect.SliceOf(reflect.TypeOf((*T9x)(nil)).Elem())
+}
+
+type M1 struct {
+	F0 func(uint64) int16
+	F1 *M1
+	Z  int
+}
+
+// RecOffsets: reflect's offsets of a self-referential struct with a func field, reached through its pointer type.
+func RecOffsets() (reflected, real [3]uintptr) {
+	var m M1
+	t := reflect.ValueOf(&m).Elem().Type()
+	for i := 0; i < 3; i++ {
+		reflected[i] = t.Field(i).Offset
+	}
+	real = [3]uintptr{unsafe.Offsetof(m.F0), unsafe.Offsetof(m.F1), unsafe.Offsetof(m.Z)}
+	m.Z = 77
+	m.F1 = &M1{Z: 5}
+	v := reflect.ValueOf(&m).Elem()
+	reflected[0] = uintptr(v.Field(2).Int())
+	real[0] = 77
+	return
+}
+
+type RF struct {
+	F    func() int
+	Next *RF
+	Z    int
+}
+
+type NRF struct {
+	F func() int
+	P *int
+	Z int
 }
 
 type Getter interface{ Get() int }
